@@ -28,8 +28,15 @@ sys.path.insert(0, os.path.dirname(os.path.abspath(__file__)))
 import py2lean  # noqa: E402  (top-level module name, as vlib/runner.py imports it)
 from py2lean import TranslationError, Tr, Ctx, find_function, lean_ident, nfkc, REPO  # noqa: E402
 
-INT, FLT, ARR, TAB, CX = "int", "float", "arr", "tab", "cx"
-LEAN_TY = {INT: "Int", FLT: "α", ARR: "Nat", TAB: "Int → α", CX: "Cx α"}
+INT, FLT, ARR, TAB, CX, CARR, CTAB = "int", "float", "arr", "tab", "cx", "carr", "ctab"
+LEAN_TY = {INT: "Int", FLT: "α", ARR: "Nat", TAB: "Int → α", CX: "Cx α", CARR: "Nat", CTAB: "Int → Cx α"}
+
+
+class Retype(Exception):
+    """an array turned out to hold complex numbers (a complex value is stored into it): restart with that knowledge"""
+
+    def __init__(self, name):
+        self.name = name
 
 
 def names_loaded(e):
@@ -44,9 +51,10 @@ class Kernel:
 class KTr:
     """translator of one kernel"""
 
-    def __init__(self, fns, kernels, consts, fd, self_attrs=False):
+    def __init__(self, fns, kernels, consts, fd, self_attrs=False, complex_arrays=()):
         self.fns, self.kernels, self.consts, self.fd = fns, kernels, consts, fd
         self.self_attrs = self_attrs
+        self.complex_arrays = set(complex_arrays)
         self.kinds = {}
         self.fresh = 0
 
@@ -69,8 +77,11 @@ class KTr:
                     stored.add(lean_ident(n.value.id))
             if isinstance(n, ast.AugAssign) and isinstance(n.target, ast.Subscript) and isinstance(n.target.value, ast.Name):
                 stored.add(lean_ident(n.target.value.id))
-            if isinstance(n, ast.Attribute) and n.attr in ("real", "imag") and isinstance(n.value, ast.Name):
+            if isinstance(n, ast.Attribute) and n.attr in ("real", "imag", "conjugate") and isinstance(n.value, ast.Name):
                 cx.add(lean_ident(n.value.id))
+            if isinstance(n, ast.Attribute) and n.attr in ("real", "imag", "conjugate") and isinstance(n.value, ast.Subscript) \
+                    and isinstance(n.value.value, ast.Name):
+                self.complex_arrays.add(lean_ident(n.value.value.id))
             if isinstance(n, ast.Assign) and len(n.targets) == 1 and isinstance(n.targets[0], ast.Name) and isinstance(n.value, ast.Name):
                 alias_of.setdefault(lean_ident(n.targets[0].id), set()).add(lean_ident(n.value.id))
         # locals that are arrays: subscripted names that are not params; their sources are aliased arrays
@@ -89,6 +100,8 @@ class KTr:
         for p in params:
             if p in cx:
                 kinds[p] = CX
+            elif p in arrs and p in self.complex_arrays:
+                kinds[p] = CARR if (p in stored or p in aliased) else CTAB
             elif p in arrs:
                 kinds[p] = ARR if (p in stored or p in aliased) else TAB
             else:
@@ -116,7 +129,7 @@ class KTr:
                 return FLT
             raise TranslationError(f"unknown name {e.id} in {self.fd.name}")
         if isinstance(e, ast.Attribute):
-            if e.attr in ("real", "imag") and isinstance(e.value, ast.Name) and self.kinds.get(lean_ident(e.value.id)) == CX:
+            if e.attr in ("real", "imag") and self.typeof(e.value) == CX:
                 return FLT
             a = self.attr_local(e)
             if a is not None and a in self.kinds:
@@ -126,19 +139,31 @@ class KTr:
             k = self.typeof(e.value)
             if k in (ARR, TAB):
                 return FLT
+            if k in (CARR, CTAB):
+                return CX
             raise TranslationError(f"subscript of {k}")
         if isinstance(e, ast.UnaryOp) and isinstance(e.op, (ast.USub, ast.UAdd)):
             return self.typeof(e.operand)
         if isinstance(e, ast.BinOp):
+            if isinstance(e.op, ast.Pow) and self.is_minus_one(e.left) and self.typeof(e.right) == INT:
+                return INT   # (-1)**k : +-1 (Python gives a float for negative k; the value is the same after conversion)
             a, b = self.typeof(e.left), self.typeof(e.right)
-            if a not in (INT, FLT) or b not in (INT, FLT):
+            if a not in (INT, FLT, CX) or b not in (INT, FLT, CX):
                 raise TranslationError(f"arithmetic on {a}/{b}: {ast.unparse(e)}")
+            if CX in (a, b):
+                return CX
             if isinstance(e.op, ast.Div):
                 return FLT
             return FLT if FLT in (a, b) else INT
         if isinstance(e, ast.Call):
             f = ast.unparse(e.func)
+            if isinstance(e.func, ast.Attribute) and e.func.attr == "conjugate" and not e.args:
+                if self.typeof(e.func.value) != CX:
+                    raise TranslationError(f"conjugate of a non-complex: {ast.unparse(e)}")
+                return CX
             if f in ("np.sqrt", "math.sqrt"):
+                if self.typeof(e.args[0]) == CX:
+                    raise TranslationError("complex square root")
                 return FLT
             if f in ("min", "max", "abs"):
                 ks = {self.typeof(a) for a in e.args}
@@ -155,8 +180,64 @@ class KTr:
         raise TranslationError(f"expression {ast.unparse(e)}")
 
     # ------------------------------------------------------------------ expressions
+    @staticmethod
+    def is_minus_one(e):
+        return (isinstance(e, ast.UnaryOp) and isinstance(e.op, ast.USub) and isinstance(e.operand, ast.Constant) and e.operand.value == 1) \
+            or (isinstance(e, ast.Constant) and e.value == -1)
+
     def iexpr(self, e):
-        return self.int_tr().expr(e)
+        # (-1)**k with a variable exponent: rewrite to a call the integer translator knows nothing about -> handle here
+        class Pw(ast.NodeTransformer):
+            def visit_BinOp(s2, node):
+                node = s2.generic_visit(node)
+                if isinstance(node.op, ast.Pow) and KTr.is_minus_one(node.left) and not isinstance(node.right, ast.Constant):
+                    return ast.Call(func=ast.Name(id="__minus_one_pow__", ctx=ast.Load()), args=[node.right], keywords=[])
+                return node
+        import copy
+        e2 = Pw().visit(copy.deepcopy(e))
+        tr = self.int_tr()
+        orig = tr.expr
+
+        def expr(x):
+            if isinstance(x, ast.Call) and isinstance(x.func, ast.Name) and x.func.id == "__minus_one_pow__":
+                return f"((-1 : Int) ^ (Int.natAbs {expr(x.args[0])}))"
+            return orig(x)
+        tr.expr = expr
+        return tr.expr(e2)
+
+    def cexpr(self, e):
+        """complex-valued Lean term of type `Cx α`, with numba's promotion of the real operand at each operation"""
+        k = self.typeof(e)
+        if k == INT:
+            return f"(Cx.ofRe (Scalar.ofInt {self.iexpr(e)} : α))"
+        if k == FLT:
+            return f"(Cx.ofRe {self.fexpr(e)})"
+        if k != CX:
+            raise TranslationError(f"{ast.unparse(e)} used as a complex number")
+        if isinstance(e, ast.Name):
+            return lean_ident(e.id)
+        if isinstance(e, ast.Subscript):
+            a = lean_ident(e.value.id)
+            if self.kinds.get(a) == CTAB:
+                return f"({a} {self.index(e)})"
+            return f"(frdC (α := α) st {a} {self.index(e)})"
+        if isinstance(e, ast.Call) and isinstance(e.func, ast.Attribute) and e.func.attr == "conjugate":
+            return f"(Cx.conj {self.cexpr(e.func.value)})"
+        if isinstance(e, ast.UnaryOp) and isinstance(e.op, ast.UAdd):
+            return self.cexpr(e.operand)
+        if isinstance(e, ast.BinOp):
+            a, b = self.typeof(e.left), self.typeof(e.right)
+            if isinstance(e.op, ast.Mult):
+                if a == FLT and b == CX:
+                    return f"(Cx.rmul {self.fexpr(e.left)} {self.cexpr(e.right)})"
+                if a == CX and b == FLT:
+                    return f"(Cx.mulr {self.cexpr(e.left)} {self.fexpr(e.right)})"
+                return f"(Cx.mul {self.cexpr(e.left)} {self.cexpr(e.right)})"
+            op = {ast.Add: "Cx.add", ast.Sub: "Cx.sub", ast.Div: "Cx.div"}.get(type(e.op))
+            if op is None:
+                raise TranslationError(f"complex operator {type(e.op).__name__}")
+            return f"({op} {self.cexpr(e.left)} {self.cexpr(e.right)})"
+        raise TranslationError(f"complex expression {ast.unparse(e)}")
 
     def icond(self, e):
         for n in ast.walk(e):
@@ -184,9 +265,11 @@ class KTr:
             n = lean_ident(e.id)
             if n in self.kinds:
                 return n
+            if n == "inverse_4pi":
+                return "(Scalar.inv4pi : α)"
             return f"({n} (α := α))"
         if isinstance(e, ast.Attribute):
-            return f"{lean_ident(e.value.id)}.{'re' if e.attr == 'real' else 'im'}"
+            return f"{self.cexpr(e.value)}.{'re' if e.attr == 'real' else 'im'}"
         if isinstance(e, ast.Subscript):
             return self.read(e)
         if isinstance(e, ast.UnaryOp):
@@ -350,14 +433,35 @@ class KTr:
                     v = self.iexpr(s.value)
                 elif k == FLT:
                     v = self.fexpr(s.value)
+                elif k == CX:
+                    v = self.cexpr(s.value)
                 else:
                     raise TranslationError(f"assignment of a {k}: {ast.unparse(s)}")
                 self.set_kind(n, k)
                 return [f"{pad}let {n} : {LEAN_TY[k]} := {v}"]
             if isinstance(t, ast.Subscript) and isinstance(t.value, ast.Name):
                 a = lean_ident(t.value.id)
-                if self.kinds.get(a) != ARR:
+                ak = self.kinds.get(a)
+                if ak not in (ARR, CARR):
                     raise TranslationError(f"store into non-array {a}")
+                vk = self.typeof(s.value)
+                if ak == ARR and vk == CX:
+                    raise Retype(a)
+                if isinstance(t.slice, ast.Slice):
+                    sl = t.slice
+                    if sl.step is not None:
+                        raise TranslationError("slice step")
+                    lo = "(0 : Int)" if sl.lower is None else self.iexpr(sl.lower)
+                    if sl.upper is None:
+                        raise TranslationError("open-ended slice store")
+                    hi = self.iexpr(sl.upper)
+                    self.fresh += 1
+                    kv = f"k{self.fresh}"
+                    val = self.cexpr(s.value) if ak == CARR else self.fexpr(s.value)
+                    wr = "fwrC" if ak == CARR else "fwr"
+                    return [f"{pad}let st : φ := loopN (({hi}) - ({lo})).toNat (fun {kv} (st : φ) => {wr} (α := α) st {a} ({lo} + ({kv} : Int)) {val}) st"]
+                if ak == CARR:
+                    return [f"{pad}let st : φ := fwrC (α := α) st {a} {self.index(t)} {self.cexpr(s.value)}"]
                 return [f"{pad}let st : φ := fwr (α := α) st {a} {self.index(t)} {self.fexpr(s.value)}"]
             raise TranslationError(f"assignment target {ast.unparse(t)}")
         if isinstance(s, ast.AugAssign):
@@ -502,7 +606,17 @@ class KTr:
 
     # ------------------------------------------------------------------ whole function
     def translate(self, lean_name=None):
+        while True:
+            try:
+                return self.translate_once(lean_name)
+            except Retype as r:
+                if r.name in self.complex_arrays:
+                    raise TranslationError(f"array {r.name}: inconsistent element kind")
+                self.complex_arrays.add(r.name)
+
+    def translate_once(self, lean_name=None):
         fd = self.fd
+        self.fresh = 0
         params, kinds = self.infer_params()
         self.kinds = dict(kinds)
         self.attr_params = []
@@ -581,6 +695,43 @@ def generate_hkern(fns, gen_dir, write_if_changed):
     write_if_changed(os.path.join(gen_dir, "HKern.lean"), "\n".join(out))
     sig = {k.name: [(p, k.kinds[p]) for p in k.params] for k in list(kernels.values()) + [kH]}
     return sig
+
+
+FILL_HEADER = """import SphericalVerif.Gen.Indexing
+import SphericalVerif.Model.FlatMem
+/-! GENERATED by vlib/py2lean_kern.py from {src} -- do not edit.  Regenerated on every check.
+
+    The kernels that turn the H wedge into results, as functions on a flat memory: same statements, loop ranges, index
+    expressions and operation order as the Python text.  A complex array is an array of doubles read in pairs
+    (`frdC st A i` = cells `2i`, `2i+1`: numpy's layout, and literally how the workspace slices are `view(complex)`ed);
+    mixed real/complex operations promote the real operand where numba does (`Cx.rmul`, `Cx.mulr`, `Cx.ofRe`). -/
+set_option linter.unusedVariables false
+namespace Gen
+section
+open Scalar
+variable {{α : Type}} [Scalar α] {{φ : Type}} [FMem φ α]
+"""
+
+
+def generate_fillkern(fns, gen_dir, write_if_changed):
+    wpath = "spherical/wigner.py"
+    text = open(os.path.join(REPO, wpath), encoding="utf-8").read()
+    wtree = ast.parse(text)
+    names = ["_fill_wigner_d", "_fill_wigner_D", "_fill_sYlm"]
+    out = [FILL_HEADER.format(src="spherical/wigner.py (" + ", ".join(names) + ")")]
+    # the one module constant these kernels use must be the documented 1/(4 pi) (Scalar.inv4pi)
+    consts = module_constants(wtree, {"inverse_4pi"})
+    if "inverse_4pi" in consts and nfkc(ast.unparse(consts["inverse_4pi"])) != "1.0 / (4 * np.pi)":
+        raise TranslationError(f"inverse_4pi = {ast.unparse(consts['inverse_4pi'])}")
+    kernels = {}
+    for name in names:
+        fd = find_function(wtree, name)
+        k, txt = KTr(fns, kernels, {"inverse_4pi"}, fd).translate()
+        kernels[lean_ident(name)] = k
+        out.append(txt)
+    out.append("end\nend Gen\n")
+    write_if_changed(os.path.join(gen_dir, "FillKern.lean"), "\n".join(out))
+    return {k.name: [(p, k.kinds[p]) for p in k.params] for k in kernels.values()}
 
 
 def table_defs(wtree, fns):
